@@ -49,6 +49,31 @@ def names_job(job):
         ws.write(w, 'patches/p1.patch', patch)
         ws.write(w, 'patches/p2.patch', scen.render_fp({'kind': 'C', 'old': 'NULL', 'new': 'later', 'ren': False, 'hunks': [], 'to': [0], 'from': [], 'nmode': 'none'}))
         ws.write(w, 'series', b'p1.patch -p%d\np2.patch\n' % case['strip'])
+        if len(job) > 4 and job[4]:
+            # run-ahead: a patch that does not apply comes first; the thread that owns the unsafe name is made to go first.
+            # Its refusal then does not count (the push stops at the failing patch) and nothing it looked at may be written.
+            ws.write(w, 'patches/p0.patch', b'--- a/keep\n+++ b/keep\n@@ -1 +1 @@\n-no such line\n+x\n')
+            ws.write(w, 'series', b'p0.patch\np1.patch -p%d\np2.patch\n' % case['strip'])
+            trace = sentinel + '.trace'
+            ws.push(w, ['-a', '-q', '--threads', 2, '--dry-run'], env={'RAPIDQUILT_VERIF_TRACE': trace})
+            evs = [json.loads(l) for l in open(trace)] if os.path.exists(trace) else []
+            os.path.exists(trace) and os.unlink(trace)
+            keys = [e['w'] for e in evs if e['ev'] == 'consider' and e.get('idx') == 1]
+            others = sorted({e['w'] for e in evs if e['ev'] == 'consider' and e.get('idx') != 1} - set(keys))
+            if not keys or not others:
+                return []                       # one thread owns everything: no run-ahead to force
+            outside_before = {p: v_ for p, v_ in ws.snapshot(sentinel, skip=(), meta=True).items() if not p.startswith('l1/l2/ws/') and p != 'l1/l2/ws/'}
+            rc, so, se = ws.push(w, ['-a', '-q', '--threads', 2], env={'RAPIDQUILT_VERIF_SCHEDULE': ','.join([keys[0]] * 30 + others * 30), 'RAPIDQUILT_VERIF_TIMEOUT_MS': '3000',
+                                                                       'RAPIDQUILT_VERIF_TRACE': trace})
+            os.path.exists(trace) and os.unlink(trace)
+            outside_after = {p: v_ for p, v_ in ws.snapshot(sentinel, skip=(), meta=True).items() if not p.startswith('l1/l2/ws/') and p != 'l1/l2/ws/'}
+            probs = []
+            if ws.crashed(rc):
+                probs.append(('crash', 'exit status %s: %s' % (rc, se[-200:])))
+            if outside_after != outside_before:
+                ch = sorted(p for p in set(outside_after) | set(outside_before) if outside_after.get(p) != outside_before.get(p))
+                probs.append(('outside-changed', 'files outside the working directory changed (the thread with the unsafe name ran ahead of a failing patch): %s' % ch))
+            return probs
         if dry:
             # C10 on these inputs: --dry-run writes nothing anywhere under the sentinel and predicts the real run
             import p_cmd
@@ -110,13 +135,15 @@ def check(prop, tier):
         jobs = [(c, 1 + (i % 2), (i % 9 == 0) if tier == 'quick' else (i % 3 == 0)) for i, c in enumerate(cases)]
         if tier == 'thorough':
             jobs += [(c, 3, False) for c in cases]
+        jobs += [(c, 2, False, False, True) for i, c in enumerate(cases) if c['verdict']['refused'] and (tier == 'thorough' or i % 3 == 0)]
         with Pool(12) as pool:
             outs = pool.map(names_job, jobs, chunksize=8)
-        for (c, t, tr), probs in zip(jobs, outs):
+        for job_, probs in zip(jobs, outs):
+            c, t = job_[0], job_[1]
             for cat, msg in probs:
                 res.violation(cat, msg + ' (threads %d)' % t, {'case': c, 'threads': t})
         res.cov['parts']['names'] = {'cases': len(cases), 'runs': len(jobs), 'expected_refusals': sum(1 for c in cases if c['verdict']['refused']),
-                                     'traced_with_strace': sum(1 for j in jobs if j[2])}
+                                     'traced_with_strace': sum(1 for j in jobs if j[2]), 'run_ahead_runs': sum(1 for j in jobs if len(j) > 4 and j[4])}
         res.cov['traces_validated_against_impl'] += len(jobs)
         res.cov['evaluations'] += len(jobs)
         res.cov['distinct_nontrivial'] += len(cases)
